@@ -28,6 +28,7 @@ class _Old:
 
 
 OLD = _Old()
+PARTIAL = _Old()      # ghost value: "some, but not necessarily all, of the old entries were removed"
 
 
 class GhostIndex:
@@ -45,10 +46,8 @@ class GhostIndex:
     def _discard(self, acckey, obj_keys=None):
         self.vc.emit('index._discard', self.name, acckey)
         self.keys_seen.append(acckey)
-        if obj_keys is None:
-            self.entries = {}
-        else:
-            raise Unsupported('partial discard is internal to Index')
+        # an explicit obj_keys restricts the removal to those index keys: not "all of the object's entries"
+        self.entries = {} if obj_keys is None else PARTIAL
 
     def _replace(self, acckey, obj):
         self.vc.emit('index._replace', self.name, acckey, obj)
@@ -60,7 +59,7 @@ class GhostIndex:
 
 def same_entries(a, b):
     """Equality of ghost entries: same sentinel, or the same keys bound to the very same value objects."""
-    if a is OLD or b is OLD:
+    if isinstance(a, _Old) or isinstance(b, _Old):
         return a is b
     return set(a) == set(b) and all(a[k] is b[k] for k in a)
 
@@ -263,3 +262,699 @@ def I2(vc):
     vc.canary('canary.always_removed', ix.index.entries == {})
     e = ix.index.entries
     return ('entries', 'OLD' if e is OLD else sorted(map(repr, e)))
+
+
+@harness('I2d', targets='kopf._core.engines.indexing.OperatorIndexers.discard', props=['C17'],
+         clauses=['all_discarded', 'same_object_key'], canaries=['canary.kept'],
+         trusted=['Index._discard by contract I1 (bounded)', 'dict iteration visits every key exactly once (loop exhaustion)'])
+def I2d(vc):
+    """
+    OperatorIndexers.discard(body): for an ARBITRARY indexer X among arbitrarily many (loop contract),
+    the object's entries are removed from X's index, using the object's key (namespace, name, uid).
+    """
+    X, Y = 'ix', 'iy'
+    body = make_body(vc)
+    ld_ir = vc.load('kopf._core.engines.indexing', 'OperatorIndexer.replace')
+    ld_id = vc.load('kopf._core.engines.indexing', 'OperatorIndexer.discard')
+    ix, iy = TrackedIndexer(vc, X, ld_ir, ld_id), TrackedIndexer(vc, Y, ld_ir, ld_id)
+    self_ = indexing.OperatorIndexers()
+    dict.__setitem__(self_, X, ix); dict.__setitem__(self_, Y, iy)
+    st = dict(done=False, visiting=None, phase=0)
+
+    def havoc(loc):
+        st['done'] = vc.nondet(2, 'X already visited?') == 1
+        ix.index.entries = {} if st['done'] else OLD
+        return {}
+
+    def element(loc, iterable):
+        c = vc.nondet(3, 'exhausted / X / another id')
+        if c == 0:
+            vc.assume(st['done'], 'exhausted: every indexer was visited')
+            return _STOP
+        if c == 1:
+            vc.assume(not st['done'], 'each key is visited once')
+            st['visiting'] = X
+            return (X, ix)
+        st['visiting'] = Y
+        return (Y, iy)
+
+    def inv(loc):
+        st['phase'] += 1
+        if st['phase'] == 1:
+            return ix.index.entries is OLD
+        if st['phase'] == 2:
+            return True
+        done = st['done'] or st['visiting'] == X
+        vc.ensure('all_discarded', same_entries(ix.index.entries, {} if done else OLD))
+        for k in ix.index.keys_seen + iy.index.keys_seen:
+            vc.ensure('same_object_key', key_matches(k, body))
+        vc.canary('canary.kept', ix.index.entries is OLD)
+        return True
+    ld = vc.load('kopf._core.engines.indexing', 'OperatorIndexers.discard', loops={
+        1: LoopSpec('for id, indexer in self.items()', invariant=inv, havoc=havoc, element=element)})
+    ld.fn(self_, body)
+    vc.ensure('all_discarded', same_entries(ix.index.entries, {}))
+    return ('entries', sorted(map(repr, ix.index.entries)))
+
+
+class _IxState:
+    """progression.State by contract (G3), as far as index_resource uses it: every derived state is a
+    fresh abstract state; its truth value (any failure/retry records left?) is arbitrary."""
+    def __init__(self, vc, tag, parent=None, args=()):
+        self.vc, self.tag, self.parent, self.args = vc, tag, parent, args
+        self._truth = None
+
+    def _derive(self, tag, *a):
+        s = _IxState(self.vc, tag, self, a)
+        self.vc.emit('state.' + tag, self, s, a)
+        return s
+
+    def with_handlers(self, handlers): return self._derive('with_handlers', handlers)
+    def with_outcomes(self, outcomes): return self._derive('with_outcomes', outcomes)
+    def without_successes(self): return self._derive('without_successes')
+
+    def __bool__(self):
+        if self._truth is None:
+            self._truth = self.vc.bool(f'bool(state[{self.tag}])')
+        return bool(self._truth)
+
+
+@harness('I2r', targets='kopf._core.engines.indexing.index_resource', props=['C17'],
+         clauses=['no_indexing_handlers_noop', 'deleted_discards', 'live_is_indexed', 'errors_ignored_by_default',
+                  'failures_remembered'],
+         canaries=['canary.always_invokes'],
+         trusted=['OperatorIndexers.replace/discard by contracts I2/I2d', 'execution.execute_handlers_once by contract X2/X1',
+                  'registry._indexing.has_handlers/get_handlers by contract R1-like selection (filters)',
+                  'progression.State by contract G3'])
+def I2r(vc):
+    """
+    index_resource: nothing happens for a resource without indexing handlers; a DELETED event only
+    discards the object from all indices (no handler is invoked); any other event invokes exactly the
+    handlers selected for this object -- all at once (a handler that is not invoked would count as a
+    filter mismatch), arbitrary errors IGNORED by default (X1 then yields "kept"), with the retry/
+    exclusion state taken from the memory -- and applies exactly the returned outcomes to the indices
+    for this body; failures/retries (not successes) are remembered for the next event.
+    """
+    has = vc.bool('has_handlers')
+    etype = vc.fin('event.type', [None, 'ADDED', 'MODIFIED', 'DELETED'])
+    body, resource, settings, memo, logger = Opaque('body'), Opaque('resource'), Opaque('settings'), Opaque('memo'), NullLogger()
+    raw_event = {'type': etype, 'object': body}
+    handlers_sel = Opaque('selected-indexing-handlers', truth=vc.bool('selected-nonempty'))
+    idx = Opaque('registry._indexing')
+    idx.has_handlers = lambda resource: (vc.emit('has_handlers', resource), has)[1]
+    idx.get_handlers = lambda cause: (vc.emit('get_handlers', cause), handlers_sel)[1]
+    registry = Opaque('registry', _indexing=idx)
+    indexers = Opaque('indexers', indices=Opaque('indices'))
+    indexers.discard = lambda body: vc.emit('indexers.discard', body)
+    indexers.replace = lambda body, outcomes: vc.emit('indexers.replace', body, outcomes)
+    vc.used('OperatorIndexers.replace', 'I2'); vc.used('OperatorIndexers.discard', 'I2d')
+    prior = _IxState(vc, 'remembered') if vc.nondet(2, 'memory has a state?') == 1 else None
+    memory = indexing.IndexingMemory(indexing_state=prior)
+    scratch = _IxState(vc, 'from_scratch')
+    outcomes = Opaque('outcomes')
+
+    class StateCls:
+        @staticmethod
+        def from_scratch():
+            vc.emit('from_scratch'); return scratch
+
+    async def execute_handlers_once(**kw):
+        vc.emit('execute', kw)
+        await suspend('execute_handlers_once')
+        if vc.nondet(2, 'execute raises?') == 1:
+            raise asyncio.CancelledError()
+        return outcomes
+    vc.used('execution.execute_handlers_once', 'X2')
+    ld = vc.load('kopf._core.engines.indexing', 'index_resource', stubs={
+        'progression.State': StateCls, 'execution.execute_handlers_once': execute_handlers_once})
+    raised = None
+    try:
+        vc.drive(ld.fn(indexers=indexers, registry=registry, settings=settings, resource=resource, raw_event=raw_event,
+                       memory=memory, logger=logger, memo=memo, body=body))
+    except asyncio.CancelledError as e:
+        raised = e
+    tr = vc.trace
+    names = [ev[0] for ev in tr]
+    deleted = Eq(etype, 'DELETED')
+    n_exec, n_disc, n_repl = names.count('execute'), names.count('indexers.discard'), names.count('indexers.replace')
+    vc.ensure('no_indexing_handlers_noop', Implies(Not(has), n_exec + n_disc + n_repl == 0 and memory.indexing_state is prior))
+    vc.ensure('deleted_discards', Implies(And(has, deleted), n_disc == 1 and n_exec == 0 and n_repl == 0))
+    vc.ensure('deleted_discards', Implies(n_disc > 0, And(has, deleted)))
+    for ev in tr:
+        if ev[0] == 'indexers.discard':
+            vc.ensure('deleted_discards', ev[1] is body)
+    vc.ensure('live_is_indexed', Iff(n_exec == 1, And(has, Not(deleted))) and n_exec <= 1)
+    vc.canary('canary.always_invokes', n_exec == 1)
+    if n_exec == 0:
+        vc.ensure('live_is_indexed', n_repl == 0)
+        return ('no-exec', n_disc)
+    kw = tr[names.index('execute')][1]
+    causes_asked = [ev[1] for ev in tr if ev[0] == 'get_handlers']
+    vc.ensure('live_is_indexed', len(causes_asked) == 1 and kw['handlers'] is handlers_sel and kw['cause'] is causes_asked[0]
+              and kw['cause'].body is body and kw['cause'].resource is resource and kw['cause'].indices is indexers.indices
+              and kw['cause'].memo is memo and kw['settings'] is settings)
+    vc.ensure('live_is_indexed', kw['lifecycle'] is lifecycles.all_at_once)
+    vc.ensure('errors_ignored_by_default', kw.get('default_errors') is EM.IGNORED)
+    # the state handed to the execution: the remembered one (else a fresh one), narrowed to the selected handlers
+    st_in = kw['state']
+    vc.ensure('failures_remembered', isinstance(st_in, _IxState) and st_in.tag == 'with_handlers' and st_in.args[0] is handlers_sel
+              and st_in.parent is (prior if prior is not None else scratch))
+    if raised is not None:
+        vc.ensure('live_is_indexed', n_repl == 0)
+        vc.ensure('failures_remembered', memory.indexing_state is prior)
+        return ('raise', type(raised).__name__)
+    vc.ensure('live_is_indexed', n_repl == 1 and names.index('indexers.replace') > names.index('execute'))
+    rep = tr[names.index('indexers.replace')]
+    vc.ensure('live_is_indexed', rep[1] is body and rep[2] is outcomes)
+    m = memory.indexing_state
+    chain_ok = (isinstance(m, _IxState) and m.tag == 'without_successes' and m.parent.tag == 'with_outcomes'
+                and m.parent.args[0] is outcomes and m.parent.parent is st_in)
+    last = [ev[2] for ev in tr if ev[0] == 'state.without_successes']
+    vc.ensure('failures_remembered', len(last) == 1)
+    vc.ensure('failures_remembered', If(last[0]._truth if last[0]._truth is not None else True, chain_ok, m is None or chain_ok))
+    return ('indexed', m is None)
+
+
+# =============================================================================================== I1
+from pyvc.bounded import bounded
+
+
+def index_view(index):
+    """view(index) = {(index key, object key) -> value}, read from the private forward map."""
+    items = index._Index__items
+    return {(k, a): v for k, store in items.items() for a, v in store._Store__items.items()}
+
+
+def index_wellformed(index):
+    """reverse[a] == {k | a in items[k]}, no empty store, no empty reverse set."""
+    items, reverse = index._Index__items, index._Index__reverse
+    if any(len(store._Store__items) == 0 for store in items.values()):
+        return False
+    if any(len(ks) == 0 for ks in reverse.values()):
+        return False
+    derived = {}
+    for k, store in items.items():
+        for a in store._Store__items:
+            derived.setdefault(a, set()).add(k)
+    return derived == reverse
+
+
+def readonly_views_agree(index, view):
+    """What handlers can see (kopf.Index / kopf.Store read-only protocols) is exactly the view's projection."""
+    keys = {k for k, _ in view}
+    if set(index) != keys or len(index) != len(keys) or bool(index) != bool(keys):
+        return False
+    for k in keys:
+        if k not in index:
+            return False
+        vals = sorted(repr(v) for (k2, _), v in view.items() if k2 == k)
+        store = index[k]
+        if sorted(repr(v) for v in store) != vals or len(store) != len(vals) or not store:
+            return False
+        if any(v not in store for (k2, _), v in view.items() if k2 == k):
+            return False
+    return all(k in keys for k in ('k1', 'k2', 'k3', None) if k in index)
+
+
+def _i1_ops(thorough):
+    objs = [('ns', 'a', 'u1'), ('ns', 'b', 'u2')]
+    if thorough:
+        maps = []
+        for r in range(4):
+            for ks in itertools.combinations(['k1', 'k2', 'k3'], r):
+                maps.append({k: 'x' for k in ks})
+                if ks:
+                    maps.append({k: ('y', i) for i, k in enumerate(ks)})
+    else:
+        # 4 result shapes (empty, one key, two keys, re-keyed/three keys) x values over 3 index keys
+        maps = [{}, {'k1': 'x'}, {'k2': 'x'}, {'k1': 'x', 'k2': 'x'}, {'k1': 'y'}, {'k2': 'y', 'k3': 'y'},
+                {'k1': 'x', 'k2': 'y', 'k3': 'x'}]
+    ops = []
+    for a in objs:
+        ops.append(('discard', a, None))
+        ops.extend(('replace', a, m) for m in maps)
+    return ops
+
+
+@bounded('I1', targets=['kopf._core.engines.indexing.Index._replace', 'kopf._core.engines.indexing.Index._discard',
+                        'kopf._core.engines.indexing.Store._replace', 'kopf._core.engines.indexing.Store._discard'],
+         props=['C17'], clauses=['view_replace', 'view_discard', 'wellformed', 'readonly_views', 'store_view'],
+         universe='all operation sequences of length <= 4 over 2 objects x 3 index keys x {discard, replace with 7 mappings '
+                  '(empty / one / two / three keys, colliding and re-keyed, two values)} = 69,904 sequences (thorough: all 8 '
+                  'key subsets x 2 value patterns: ~1.3e6); plus all Store sequences of length <= 4 over 3 object keys x '
+                  '{discard, replace with 3 values incl. an equal-but-not-identical one}')
+def I1(b):
+    """
+    BOUNDED stand-in (not a proof) for the view/wf contract of Index and Store.  A deductive encoding
+    needs a heap model of dict-of-dict-with-reverse-map objects with aliasing (`store = items[k]`
+    mutated in place) and quantified well-formedness invariants over two loops; that is out of reach
+    of pyvc's proxy values (symbolic keys cannot be hashed into the real dicts), so the same contract
+    is evaluated on the real classes over the stated universe.
+    After every operation of every sequence, against a dictionary reference model of the WHOLE view:
+      Index._replace(a, m): view' == {(k,a')->v in view | a' != a} + {(k,a)->v | (k,v) in m}   (other objects untouched)
+      Index._discard(a):    view' == {(k,a')->v in view | a' != a}
+      wf': reverse map consistent with the forward map, no empty store, no empty reverse set
+      the read-only protocols (iteration, len, bool, in, []) show exactly the projection of view'
+      Store._replace/_discard: the same over {object key -> value}.
+    """
+    ops = _i1_ops(b.thorough)
+
+    def run(seq):
+        index = indexing.Index()
+        model = {}
+        for n, (op, a, m) in enumerate(seq):
+            if op == 'discard':
+                index._discard(a)
+                model = {ka: v for ka, v in model.items() if ka[1] != a}
+            else:
+                index._replace(a, m)
+                model = {ka: v for ka, v in model.items() if ka[1] != a}
+                model.update({(k, a): v for k, v in m.items()})
+            last = n == len(seq) - 1
+            if not last:
+                continue       # prefixes are sequences of the universe themselves: checked there
+            wit = lambda: dict(sequence=[(o, x, y) for o, x, y in seq], view=index_view(index), expected=model,
+                               reverse=dict(index._Index__reverse))
+            b.check('view_replace' if op == 'replace' else 'view_discard', index_view(index) == model, wit)
+            b.check('wellformed', index_wellformed(index), wit)
+            b.check('readonly_views', readonly_views_agree(index, model), wit)
+
+    for n in range(1, 5):
+        for seq in itertools.product(ops, repeat=n):
+            touched = {a for _, a, _ in seq[:-1]}
+            b.case(key=None, nontrivial=(n == 1 or seq[-1][1] in touched or len(touched) > 0))
+            run(seq)
+
+    # ---- Store on its own
+    class Eq1:
+        """equal to 1 but not identical: `!=`-guarded updates must still leave an equal value"""
+        def __eq__(self, o): return o == 1 or isinstance(o, Eq1)
+        def __hash__(self): return hash(1)
+        def __repr__(self): return '1'
+    sops = [(op, a, v) for a in ('A', 'B', 'C') for op, v in (('discard', None), ('replace', 0), ('replace', 1), ('replace', Eq1()))]
+    for n in range(1, 5):
+        for seq in itertools.product(sops, repeat=n):
+            store = indexing.Store()
+            model = {}
+            for op, a, v in seq:
+                if op == 'discard':
+                    store._discard(a); model.pop(a, None)
+                else:
+                    store._replace(a, v); model[a] = v
+            b.case(key=None)
+            got = store._Store__items
+            ok = (got == model and len(store) == len(model) and bool(store) == bool(model)
+                  and sorted(map(repr, store)) == sorted(map(repr, model.values())) and all(v in store for v in model.values()))
+            b.check('store_view', ok, lambda: dict(sequence=[(o, x, repr(y)) for o, x, y in seq], items=repr(got), expected=repr(model)))
+
+
+# =============================================================================================== Q7
+class GhostToggleSet:
+    """
+    aiotoggles.ToggleSet(all) by contract (O1t): on <=> no member toggle is off.  Rely used by the
+    watcher (from O1: the kind toggle is made OFF before the watcher task exists, and nobody but this
+    watcher drops it): while the kind toggle is still a member, is_on() is False; otherwise it is
+    arbitrary at every call (other kinds/objects come and go).  make_toggle/drop_toggle suspend.
+    """
+    def __init__(self, vc, kind_toggle):
+        self.vc, self.kind_toggle = vc, kind_toggle
+        self.kind_dropped = False
+
+    def is_on(self):
+        r = False if (self.kind_toggle is not None and not self.kind_dropped) else self.vc.bool('operator_indexed.is_on()')
+        self.vc.emit('is_on', self, r)
+        return r
+
+    async def make_toggle(self, *a, name=None):
+        t = Opaque('object-toggle')
+        self.vc.emit('make_toggle', self, t, a)
+        await suspend('make_toggle')
+        return t
+
+    async def drop_toggle(self, t):
+        self.vc.emit('drop_toggle', self, t)
+        if t is self.kind_toggle:
+            self.kind_dropped = True
+        await suspend('drop_toggle')
+
+    def __bool__(self):
+        raise NotImplementedError
+
+
+class _Q:
+    def __init__(self, vc): self.vc = vc
+    async def put(self, item):
+        self.vc.emit('put', self, item)
+        await suspend('backlog.put')
+
+
+class _Ev:
+    def __init__(self, vc): self.vc = vc
+    def set(self): self.vc.emit('pressure.set', self)
+
+
+class _DoneTask:
+    def done(self): return True
+    def cancel(self): return False
+
+
+@harness('Q7', targets='kopf._core.reactor.queueing.watcher', props=['C17'],
+         clauses=['listed_drops_kind_toggle', 'kind_toggle_dropped_only_on_listed', 'object_toggle_before_spawn',
+                  'object_toggle_only_while_off', 'no_toggle_without_worker', 'gate_reference_kept'],
+         canaries=['canary.always_toggles', 'canary.never_drops'],
+         trusted=['ToggleSet by contract O1t + rely from O1 (kind toggle made off before the watcher task exists)',
+                  'aiotasks.Scheduler.spawn by contract S2 (takes ownership of the coroutine)',
+                  'watching.infinite_watch yields Bookmark.LISTED after each listing (W1/W2)'],
+         replayable=False)
+def Q7(vc):
+    """
+    The toggle clause of queueing.watcher, for ONE arbitrary event of the infinite stream (loop
+    contract; loop state: the kind toggle dropped or not, the local reference to the operator-wide
+    set kept or forgotten, the object's stream present or not).  Invariant: while the kind toggle is
+    still a member of the set, the watcher still holds the set.  Per event:
+      * LISTED  =>  the kind toggle is dropped from the operator-wide set (if not before), and it is
+        dropped on no other event;
+      * a worker is spawned for a new object: if the set was observed off (and the kind is indexed),
+        a per-object toggle was made in that set strictly BEFORE the spawn and is handed to the worker
+        together with the set; a toggle is made only right after observing the set off (no suspension
+        in between), at most one, and never without a worker being spawned for it.
+    Other clauses of the watcher (multiplexing, errors) are Q5/Q6/Q8 in c01_queueing.py.
+    """
+    from kopf._cogs.clients import watching
+    from kopf._core.reactor import queueing
+    has_set = vc.nondet(2, 'operator_indexed given?') == 1
+    kind = Opaque('kind-toggle') if vc.nondet(2, 'kind is indexed (resource_indexed given)?') == 1 else None
+    tset = GhostToggleSet(vc, kind) if has_set else None
+    resource, settings, processor = Opaque('resource'), Opaque('settings', queueing=Opaque('q', worker_limit=None)), Opaque('processor')
+    key = (resource, queueing.ObjectUid('u1'))
+    streams_ref = []
+    st = dict(phase=0, event=None, local0=None, dropped0=False)
+    LISTED = watching.Bookmark.LISTED
+
+    class Scheduler:
+        def __init__(self, **kw): pass
+        async def spawn(self, coro, name=None):
+            vc.emit('spawn', coro)
+            await suspend('scheduler.spawn')
+        def close(self): return None
+
+    def worker(**kw):
+        streams_ref.append(kw['streams'])
+        return ('worker-coro', kw)
+
+    def on_suspend(site):
+        vc.emit('suspension', site)
+
+    def havoc(loc):
+        if tset is not None:
+            tset.kind_dropped = kind is not None and vc.nondet(2, 'kind toggle dropped earlier?') == 1
+        local = tset
+        if tset is not None and (kind is None or tset.kind_dropped) and vc.nondet(2, 'set already forgotten?') == 1:
+            local = None
+        st['local0'], st['dropped0'] = local, (tset is not None and tset.kind_dropped)
+        streams = loc['streams']
+        streams.clear()
+        if vc.nondet(2, 'the object has a stream already?') == 1:
+            streams[key] = queueing.Stream(backlog=_Q(vc), pressure=_Ev(vc))
+        return {'operator_indexed': local}
+
+    def element(loc, iterable):
+        c = vc.nondet(3, 'event: LISTED / k8s BOOKMARK / object event')
+        if c == 0:
+            ev = LISTED
+        elif c == 1:
+            ev = {'type': 'BOOKMARK', 'object': {'metadata': {'resourceVersion': vc.str('rv')}}}
+        else:
+            ev = {'type': vc.fin('event.type', [None, 'ADDED', 'MODIFIED', 'DELETED']),
+                  'object': {'metadata': {'uid': 'u1', 'name': 'n', 'namespace': 'ns'}}}
+        st['event'] = ev
+        return ev
+
+    def holds_set(local):
+        # while the kind toggle is still a member of the set, the watcher must still hold the set
+        return tset is None or kind is None or tset.kind_dropped or local is tset
+
+    def inv(loc):
+        st['phase'] += 1
+        if st['phase'] == 1:
+            return holds_set(loc['operator_indexed']) and (tset is None or not tset.kind_dropped)
+        if st['phase'] == 2:
+            return True
+        tr = vc.trace
+        start = max(i for i, ev in enumerate(tr) if ev[0] == 'loop-head')
+        it = tr[start + 1:]
+        names = [ev[0] for ev in it]
+        ev = st['event']
+        gated = tset is not None and kind is not None
+        vc.ensure('gate_reference_kept', holds_set(loc['operator_indexed']))
+        vc.ensure('gate_reference_kept', loc['operator_indexed'] is None or loc['operator_indexed'] is tset)
+        drops = [e for e in it if e[0] == 'drop_toggle']
+        if ev is LISTED and gated:
+            vc.ensure('listed_drops_kind_toggle', tset.kind_dropped)
+            vc.ensure('listed_drops_kind_toggle', st['dropped0'] or any(e[1] is tset and e[2] is kind for e in drops))
+        vc.canary('canary.never_drops', not drops)
+        for e in drops:
+            vc.ensure('kind_toggle_dropped_only_on_listed', ev is LISTED and e[2] is kind and e[1] is tset)
+        made = [i for i, n in enumerate(names) if n == 'make_toggle']
+        spawns = [i for i, n in enumerate(names) if n == 'spawn']
+        seen_on = [e[2] for e in it if e[0] == 'is_on']
+        vc.ensure('object_toggle_only_while_off', len(made) <= 1)
+        for i in made:
+            vc.ensure('object_toggle_only_while_off', gated and it[i][1] is tset and not it[i][3])   # made OFF, in the set
+            before = [j for j in range(i) if names[j] == 'is_on']
+            vc.ensure('object_toggle_only_while_off', bool(before) and 'suspension' not in names[before[-1]:i]
+                      and it[before[-1]][1] is tset)
+            if before:
+                vc.ensure('object_toggle_only_while_off', Not(it[before[-1]][2]))
+            vc.ensure('no_toggle_without_worker', len(spawns) == 1 and spawns[0] > i)
+        vc.canary('canary.always_toggles', len(made) == 1)
+        for j in spawns:
+            kw = it[j][1][1]
+            t, s = kw['resource_indexed'], kw['operator_indexed']
+            off = And(*[Not(x) for x in seen_on])
+            must = And(gated and st['local0'] is tset, off)
+            vc.ensure('object_toggle_before_spawn', Implies(must, len(made) == 1 and made[0] < j and t is it[made[0]][2] and s is tset)
+                      if made else Not(must))
+            vc.ensure('object_toggle_before_spawn', t is None or (len(made) == 1 and made[0] < j and t is it[made[0]][2] and s is tset))
+            vc.ensure('object_toggle_before_spawn', s is None or s is tset)
+        return True
+    ld = vc.load('kopf._core.reactor.queueing', 'watcher', stubs={
+        'asyncio.current_task': lambda: Opaque('watcher-task', cancel=lambda: None),
+        'asyncio.Condition': lambda: Opaque('signaller'),
+        'asyncio.Queue': lambda: _Q(vc), 'asyncio.Event': lambda: _Ev(vc),
+        'asyncio.create_task': lambda coro, **kw: _DoneTask(),
+        'asyncio.shield': lambda t: t,
+        'aiotasks.Scheduler': Scheduler,
+        'watching.infinite_watch': lambda **kw: (vc.emit('infinite_watch', kw), 'the-stream')[1],
+        'worker': worker,
+        '_wait_for_depletion': lambda **kw: None,
+    }, loops={1: LoopSpec('async for raw_event in stream', invariant=inv, havoc=havoc, element=element)})
+    vc.drive(ld.fn(namespace='ns', settings=settings, resource=resource, processor=processor,
+                   operator_paused=Opaque('operator_paused'), operator_indexed=tset, resource_indexed=kind),
+             on_suspend=on_suspend)
+    raise Unsupported('the infinite stream ended')
+
+
+# =============================================================================================== O1
+class _RecToggleSet:
+    """ToggleSet by contract (O1t), recording on the ghost trace; make/drop suspend (condition lock)."""
+    def __init__(self, vc): self.vc = vc
+
+    async def make_toggle(self, *a, name=None):
+        t = Opaque(f'toggle:{name if isinstance(name, str) else "?"}')
+        self.vc.emit('make_toggle', self, t, a)
+        await suspend('make_toggle')
+        return t
+
+    async def drop_toggle(self, t):
+        self.vc.emit('drop_toggle', self, t)
+        await suspend('drop_toggle')
+
+    async def drop_toggles(self, ts):
+        for t in ts:
+            self.vc.emit('drop_toggle', self, t)
+        await suspend('drop_toggles')
+
+    def __bool__(self):
+        raise NotImplementedError
+
+
+class _SymKeys:
+    """A mapping/container whose membership answers are arbitrary (one fresh boolean per question)."""
+    def __init__(self, vc, name): self.vc, self.name, self.set_calls = vc, name, []
+    def __contains__(self, k): return self.vc.nondet(2, f'key in {self.name}?') == 1
+    def __setitem__(self, k, v): self.set_calls.append((k, v)); self.vc.emit('task_registered', k, v)
+
+
+@harness('O1', targets='kopf._core.reactor.orchestration.spawn_missing_watchers', props=['C17'],
+         clauses=['blocker_first', 'blocker_dropped_last', 'kind_toggle_before_task', 'frame'],
+         canaries=['canary.every_kind_gated'],
+         trusted=['ToggleSet.make_toggle/drop_toggle by contract O1t', 'aiotasks.create_guarded_task by contract S3/U1 (a task is created)'],
+         replayable=False)
+def O1(vc):
+    """
+    spawn_missing_watchers: the operator-wide blocker toggle is made (off) in ensemble.operator_indexed
+    before anything else -- in particular before the first watcher task is created --, it is not
+    dropped while watchers are being created, and it is dropped (it, and nothing else) after the last
+    per-kind toggle was made and the last task created.  For an ARBITRARY (resource, namespace) pair
+    (loop contract): a new watcher of an indexed resource gets a fresh toggle made OFF in the same set
+    strictly before its task is created, and the watcher is given that toggle and that set; a watcher
+    of a non-indexed resource gets no toggle.  Together with Q7 and O1t: the set cannot turn on before
+    every indexed kind has dropped its toggle (lemma of DESIGN C17).
+    """
+    tset = _RecToggleSet(vc)
+    paused = Opaque('operator_paused')
+    tasks = _SymKeys(vc, 'ensemble.watcher_tasks')
+    ensemble = Opaque('ensemble', operator_indexed=tset, operator_paused=paused, watcher_tasks=tasks)
+    indexed = _SymKeys(vc, 'indexed_resources')
+    settings = Opaque('settings')
+    def processor(**kw): raise AssertionError('the processor is not called here')
+    st = dict(phase=0, resource=None)
+
+    def watcher(**kw):
+        return ('watcher-coro', kw)
+
+    def create_guarded_task(coro, name=None, **kw):
+        t = Opaque('task')
+        vc.emit('create_task', t, coro, kw)
+        return t
+
+    async def sleep(d):
+        await suspend('asyncio.sleep')
+
+    def blocker_of(tr):
+        return tr[0][2] if tr and tr[0][0] == 'make_toggle' else None
+
+    def prefix_ok(tr):
+        """the blocker is the first event, made off in the set, and has not been dropped"""
+        b = blocker_of(tr)
+        return (b is not None and tr[0][1] is tset and not tr[0][3]
+                and not any(ev[0] == 'drop_toggle' for ev in tr))
+
+    def element(loc, iterable):
+        if vc.nondet(2, 'pairs exhausted?') == 0:
+            return _STOP
+        st['resource'] = Opaque('resource', namespaced=vc.bool('resource.namespaced'))
+        return (st['resource'], vc.fin('namespace', [None, 'ns1']))
+
+    def inv(loc):
+        st['phase'] += 1
+        tr = [ev for ev in vc.trace if ev[0] != 'loop-head']
+        if st['phase'] == 1:
+            vc.ensure('blocker_first', prefix_ok(tr) and len(tr) == 1)
+            return True
+        if st['phase'] == 2:
+            return True
+        vc.ensure('blocker_dropped_last', prefix_ok(tr))
+        it = tr[1:]
+        names = [ev[0] for ev in it]
+        created = [i for i, n in enumerate(names) if n == 'create_task']
+        made = [i for i, n in enumerate(names) if n == 'make_toggle']
+        vc.ensure('frame', len(created) <= 1 and len(made) <= len(created))
+        vc.canary('canary.every_kind_gated', len(made) == len(created))
+        for i in created:
+            kw = it[i][2][1]
+            r = kw['resource']
+            vc.ensure('frame', r is st['resource'] and kw['operator_indexed'] is tset and kw['operator_paused'] is paused
+                      and kw['settings'] is settings)
+            vc.ensure('frame', len(tasks.set_calls) == 1 and tasks.set_calls[0][1] is it[i][1])
+            t = kw['resource_indexed']
+            asked = [ev for ev in it if ev[0] == 'indexed?']
+            vc.ensure('kind_toggle_before_task', len(asked) >= 1 and all(ev[1] is r for ev in asked))
+            is_indexed = asked[-1][2] if asked else False
+            if is_indexed:
+                vc.ensure('kind_toggle_before_task', len(made) == 1 and made[0] < i and t is it[made[0]][2]
+                          and it[made[0]][1] is tset and not it[made[0]][3])
+            else:
+                vc.ensure('kind_toggle_before_task', t is None and not made)
+        return True
+
+    class Indexed:
+        def __contains__(self, r):
+            ans = vc.nondet(2, 'resource in indexed_resources?') == 1
+            vc.emit('indexed?', r, ans)
+            return ans
+    ld = vc.load('kopf._core.reactor.orchestration', 'spawn_missing_watchers', stubs={
+        'aiotasks.create_guarded_task': create_guarded_task, 'queueing.watcher': watcher, 'asyncio.sleep': sleep,
+        'itertools.product': lambda *a: ('product-of', a),
+    }, loops={1: LoopSpec('for resource, namespace in itertools.product(watched_resources, watched_namespaces)',
+                          invariant=inv, element=element)})
+    vc.drive(ld.fn(processor=processor, settings=settings, indexed_resources=Indexed(), watched_resources=Opaque('resources'),
+                   watched_namespaces=Opaque('namespaces'), ensemble=ensemble))
+    tr = [ev for ev in vc.trace if ev[0] not in ('loop-head', 'indexed?')]
+    b = blocker_of(tr)
+    drops = [i for i, ev in enumerate(tr) if ev[0] == 'drop_toggle']
+    vc.ensure('blocker_first', b is not None and tr[0][1] is tset and not tr[0][3])
+    vc.ensure('blocker_dropped_last', len(drops) == 1 and tr[drops[0]][1] is tset and tr[drops[0]][2] is b)
+    vc.ensure('blocker_dropped_last', all(i < drops[0] for i, ev in enumerate(tr) if ev[0] in ('make_toggle', 'create_task')) if drops else False)
+    return ('done', len(tr))
+
+
+# =============================================================================================== O1t
+class _Cond:
+    """asyncio.Condition by contract: an async context manager (may suspend on entry) + notify_all()."""
+    def __init__(self, vc): self.vc, self.held = vc, False
+    async def __aenter__(self):
+        await suspend('condition.acquire'); self.held = True
+    async def __aexit__(self, *a):
+        self.held = False
+    def notify_all(self):
+        self.vc.emit('notify_all', self.held)
+
+
+@harness('O1t', targets=['kopf._cogs.aiokits.aiotoggles.ToggleSet.is_on', 'kopf._cogs.aiokits.aiotoggles.ToggleSet.make_toggle',
+                         'kopf._cogs.aiokits.aiotoggles.ToggleSet.drop_toggle'], props=['C17'],
+         clauses=['on_iff_no_member_off', 'made_toggle_blocks', 'dropped_toggle_leaves', 'waiters_notified'],
+         canaries=['canary.always_on'],
+         trusted=['asyncio.Condition (lock + notify_all) by contract', 'members bounded by 3 (the generator expression in is_on is run natively)'])
+def O1t(vc):
+    """
+    ToggleSet with fn=all: is_on() <=> no member toggle is off (true for the empty set), for 0..3 member
+    toggles of arbitrary states; make_toggle() returns a new member that is OFF by default (so the set is
+    off afterwards) and wakes the waiters under the lock; drop_toggle(t) removes exactly t (others stay)
+    and wakes the waiters.  Toggle/ToggleSet are the real classes; only the asyncio.Condition is a stub.
+    """
+    from kopf._cogs.aiokits import aiotoggles
+    cond = _Cond(vc)
+    ts = aiotoggles.ToggleSet.__new__(aiotoggles.ToggleSet)
+    ts._condition, ts._toggles, ts._fn = cond, set(), all
+    n = vc.nondet(4, 'number of member toggles')
+    states = [vc.bool(f'toggle{i}.state') for i in range(n)]
+    members = []
+    for i, s in enumerate(states):
+        t = aiotoggles.Toggle.__new__(aiotoggles.Toggle)
+        t._condition, t._state, t._name = cond, s, f't{i}'
+        members.append(t); ts._toggles.add(t)
+    ld_on = vc.load('kopf._cogs.aiokits.aiotoggles', 'ToggleSet.is_on')
+    ld_mk = vc.load('kopf._cogs.aiokits.aiotoggles', 'ToggleSet.make_toggle')
+    ld_dr = vc.load('kopf._cogs.aiokits.aiotoggles', 'ToggleSet.drop_toggle')
+    on0 = ld_on.fn(ts)
+    all_on = And(*states) if states else True
+    vc.ensure('on_iff_no_member_off', Iff(on0, all_on))
+    vc.canary('canary.always_on', on0)
+    op = vc.nondet(3, 'then: nothing / make_toggle / drop_toggle')
+    if op == 1:
+        explicit = vc.nondet(3, 'initial state: default / False / True')
+        args = [(), (False,), (True,)][explicit]
+        t = vc.drive(ld_mk.fn(ts, *args, name='new'))
+        vc.ensure('made_toggle_blocks', isinstance(t, aiotoggles.Toggle) and t in ts._toggles and len(ts._toggles) == n + 1
+                  and all(m in ts._toggles for m in members) and t._condition is cond)
+        vc.ensure('made_toggle_blocks', t.is_on() is (explicit == 2))
+        on1 = ld_on.fn(ts)
+        vc.ensure('made_toggle_blocks', Iff(on1, And(all_on, explicit == 2)))
+        vc.ensure('waiters_notified', [ev for ev in vc.trace if ev[0] == 'notify_all'] == [('notify_all', True)])
+    elif op == 2 and n > 0:
+        victim = members[vc.nondet(n, 'which member is dropped')]
+        vc.drive(ld_dr.fn(ts, victim))
+        vc.ensure('dropped_toggle_leaves', victim not in ts._toggles and len(ts._toggles) == n - 1
+                  and all(m in ts._toggles for m in members if m is not victim))
+        on1 = ld_on.fn(ts)
+        rest = [s for m, s in zip(members, states) if m is not victim]
+        vc.ensure('dropped_toggle_leaves', Iff(on1, And(*rest) if rest else True))
+        vc.ensure('waiters_notified', [ev for ev in vc.trace if ev[0] == 'notify_all'] == [('notify_all', True)])
+    elif op == 2:
+        stranger = aiotoggles.Toggle.__new__(aiotoggles.Toggle)
+        stranger._condition, stranger._state, stranger._name = cond, False, 'x'
+        vc.drive(ld_dr.fn(ts, stranger))
+        vc.ensure('dropped_toggle_leaves', len(ts._toggles) == 0)
+    return ('ok', n, op)
